@@ -158,11 +158,28 @@ Lemma host_combined_dropped_with_warning : forall o pc ph x px pb body be cl res
   (rest, warn st W_HOST pb).
 Proof.
   intros o pc ph x px pb body be cl rest endp st H Hx. unfold qrule. rewrite H.
-  unfold host_try_parse. cbn [skip_ws node_tok is_ws_or_comment].
+  unfold host_try_parse. cbn [skip_ws skip_comments node_tok is_ws_or_comment is_comment].
   replace (str_eqb s_host s_host) with true by reflexivity.
   cbn [host_scan node_tok]. rewrite Hx. cbn [host_scan node_tok is_ws_or_comment keep_first pos_after cur_pos node_pos].
   destruct x; try discriminate; reflexivity.
 Qed.
+
+(* `: host` (whitespace after the colon) is not `:host`: the rule is an ordinary qualified rule
+   (fix bdd7adf; before it the rule was converted, D26) *)
+Lemma host_spaced_not_converted : forall o pc w pw r endp st,
+  qrule o (Leaf TColon pc :: Leaf (TWs w) pw :: r) endp st =
+  qr_loop o (Leaf TColon pc :: Leaf (TWs w) pw :: r) false false st.
+Proof.
+  intros o pc w pw r endp st. unfold qrule. cbn [skip_ws node_tok is_ws_or_comment].
+  destruct (convert_host o); reflexivity.
+Qed.
+
+(* a comment between the colon and `host` does not separate the tokens *)
+Lemma host_comment_still_host : forall o pc c pcm ph pb body be cl rest endp st,
+  convert_host o = true ->
+  qrule o (Leaf TColon pc :: Leaf (TComment c) pcm :: Leaf (TIdent s_host) ph :: Block TCurly pb body be cl :: rest) endp st =
+  (rest, host_emit o st pb body).
+Proof. intros o pc c pcm ph pb body be cl rest endp st H. unfold qrule. rewrite H. reflexivity. Qed.
 
 (* while the low-priority output is selected, the value walker writes to it only *)
 Lemma emit_low_mode : forall st o, w_using_low st = true ->
